@@ -947,6 +947,17 @@ def vis_cases():
                               "files": files, "main": "main.ddp", "expect": "reject-use", "value": None, "decl": kind, "ident": name, "listed_bad": [],
                               "cell": "transitive:%s/%s/%s" % (kind, "whole" if "aus" not in inner else "sel", "whole" if "aus" not in outer else "sel"),
                               "law_if_accepted": "name-of-a-module-imported-by-the-imported-module-usable"})
+    # ... and cannot be listed in a selective import from the importing module either: `Binde <name> aus "m2" ein.` names a declaration
+    # that m2 only imported (wholly or selectively) from m1 - m2 does not declare it, so the import must be rejected
+    for ki, kind in enumerate(KINDS):
+        name = NAME[kind]
+        for inner in ('Binde "m1" ein.\n', 'Binde %s aus "m1" ein.\n' % name):
+            for outer in ('Binde %s aus "m2" ein.\n' % name, 'Binde anker2 und %s aus "m2" ein.\n' % name, 'Binde %s und anker2 aus "m2" ein.\n' % name):
+                files = {"m1.ddp": _decl(kind, name, True, 100 + ki), "m2.ddp": inner + "Die öffentliche Zahl anker2 ist 2.\n",
+                         "main.ddp": DUDEN + outer + _use(kind, name)}
+                tag = "%s/%s/%s" % (kind, "whole" if "aus" not in inner else "sel", "only" if "anker2" not in outer else ("last" if outer.index("anker2") < outer.index(name) else "first"))
+                cases.append({"kind": "vis", "name": "v-relist-" + tag.replace("/", "-"), "files": files, "main": "main.ddp", "expect": "reject-import", "value": None,
+                              "decl": kind, "ident": name, "listed_bad": [2], "cell": "relisted:" + tag})
     # directory imports: all public names of the modules of the directory, of sub directories only when recursive, never private ones
     for ki, kind in enumerate(KINDS):
         name = NAME[kind]
